@@ -8,10 +8,12 @@ Model: `Model/InvokeFee.lean` (`HandleInvokeTransaction`, `costInvalidGas`, `cha
 written, the VM a black box whose `ExecOutcome` is universally quantified. Every theorem below is for ALL `uint64`
 gas prices / limits (including every wrap-around of `GasLimit*GasPrice`, `MIN_TRANSACTION_GAS*GasPrice`,
 `codeLenGasLimit*GasPrice`, `availableGasLimit - codeLenGasLimit`, `availableGasLimit - sc.Gas`), all balances, all
-overlays (`σ` arbitrary), all VM outcomes, both variants of the recorded defect.
+overlays (`σ` arbitrary), all VM outcomes, both variants of the recorded defect (gas-limit underflow, see below).
 
-The only way the as-shipped code falls outside the statement is the Go panic (integer divide by zero in
-`tuneGasFeeByHeight`) characterised by `C05_panic_iff_cond` / `C05_asShipped_counterexample`.
+The ONG fee transfer is not a second model: it is C06's token model (`Model/Token.lean`) called the way
+`chargeCostGas` calls the ONG contract, and `C05_fee_le_balance` / `C05_reported` / `C05_fee_authorised` are derived
+from C06's lemmas about `transferPrim` (`Proofs/Token.lean`). `tuneGasFeeByHeight` is the repaired function
+(`gasRound == 0` guard, /repo 5c254519); the former divide-by-zero witness stays in corpus/C05.
 -/
 namespace OntVerif.Props.C05
 open OntVerif.Model.InvokeFee OntVerif.Proofs.InvokeFee
@@ -31,7 +33,7 @@ theorem C05_discard (v : Variant) (env : Env) (ov : Overlay σ) (tx : Tx) (out :
 /-- **Fee ≤ balance**: the reported fee, in storage precision, never exceeds the payer's balance before the transaction. -/
 theorem C05_fee_le_balance (v : Variant) (env : Env) (ov : Overlay σ) (tx : Tx) (out : ExecOutcome σ) (ov' : Overlay σ) (n : Notify)
     (h : invoke v env ov tx out = .done ov' n) (hf : n.state = .fail) :
-    n.gasConsumed.toNat * unit ≤ ov.bal tx.payer := by
+    unit * n.gasConsumed.toNat ≤ ov.bal tx.payer := by
   have g := good_invoke v env ov tx out
   rw [h] at g
   exact (g hf).le
@@ -40,8 +42,8 @@ theorem C05_fee_le_balance (v : Variant) (env : Env) (ov : Overlay σ) (tx : Tx)
 contract (so it is 0 when the fee transfer itself was rejected: then both balances are unchanged). -/
 theorem C05_reported (v : Variant) (env : Env) (ov : Overlay σ) (tx : Tx) (out : ExecOutcome σ) (ov' : Overlay σ) (n : Notify)
     (h : invoke v env ov tx out = .done ov' n) (hf : n.state = .fail) (hpg : tx.payer ≠ env.gov) :
-    ov'.bal tx.payer + n.gasConsumed.toNat * unit = ov.bal tx.payer ∧
-    ov'.bal env.gov = ov.bal env.gov + n.gasConsumed.toNat * unit := by
+    ov'.bal tx.payer + unit * n.gasConsumed.toNat = ov.bal tx.payer ∧
+    ov'.bal env.gov = ov.bal env.gov + unit * n.gasConsumed.toNat := by
   have g := good_invoke v env ov tx out
   rw [h] at g
   exact ⟨(g hf).payer_ hpg, (g hf).gov_ hpg⟩
@@ -54,47 +56,138 @@ theorem C05_reported_self (v : Variant) (env : Env) (ov : Overlay σ) (tx : Tx) 
   rw [h] at g
   exact (g hf).self hpg
 
-/-- The only result that is neither a notify nor a rejected block is the Go panic, and it needs all of: unrepaired
-code, a height past the gas-round tune height, a charged transaction, and `GasPrice * 20000 ≡ 0 (mod 2^64)`. -/
-theorem C05_panic_iff_cond (v : Variant) (env : Env) (ov : Overlay σ) (tx : Tx) (out : ExecOutcome σ)
-    (h : invoke v env ov tx out = .panic) :
-    v = .asShipped ∧ env.tuned = true ∧ tx.gasPrice * minTxGas = 0 ∧ isCharge env tx = true := by
+/-- a fee can only move with the payer's signature on the transaction (C06's authorization rule, `C06_auth_transfer`,
+instantiated at the fee transfer): FAIL with a non-zero reported fee ⇒ the payer is among the signers -/
+theorem C05_fee_authorised (v : Variant) (env : Env) (ov : Overlay σ) (tx : Tx) (out : ExecOutcome σ) (ov' : Overlay σ) (n : Notify)
+    (h : invoke v env ov tx out = .done ov' n) (hf : n.state = .fail) (hne : n.gasConsumed ≠ 0) :
+    tx.payerWitness = true := by
+  have key : ∀ g, costInvalid env ov tx g = .done ov' n → tx.payerWitness = true := by
+    intro g hg
+    unfold costInvalid at hg
+    split at hg
+    · injection hg with _ hn; subst hn; exact absurd rfl hne
+    · cases hg
+    · next b hb =>
+      injection hg with _ hn
+      subst hn
+      rcases feeTransfer_auth _ _ _ _ _ _ hb with h0 | hw
+      · exfalso
+        have : g.toNat = 0 := by
+          rcases Nat.mul_eq_zero.mp h0 with hu | hg0
+          · exact absurd hu (by decide)
+          · exact hg0
+        exact hne (UInt64.toNat_inj.mp (by simpa using this))
+      · exact hw
+  have after : ∀ ob av, afterExec env ov tx out ob av = .done ov' n → tx.payerWitness = true := by
+    intro ob av ha
+    unfold afterExec at ha
+    split at ha; · cases ha
+    split at ha
+    · split at ha
+      · exact key _ ha
+      · injection ha with _ hn; subst hn; exact absurd rfl hne
+    · split at ha
+      · split at ha
+        · exact key _ ha
+        · unfold chargeAndCommit at ha
+          dsimp only at ha
+          split at ha
+          · injection ha with _ hn; subst hn; exact absurd rfl hne
+          · cases ha
+          · injection ha with _ hn; subst hn; cases hf
+      · injection ha with _ hn; subst hn; cases hf
+  unfold invoke at h
+  split at h
+  · split at h; · cases h
+    dsimp only at h
+    split at h; · exact key _ h
+    split at h; · exact key _ h
+    split at h; · exact key _ h
+    split at h; · exact key _ h
+    exact after _ _ h
+  · exact after _ _ h
+
+/-- **Totality**: every invoke transaction yields a notify or an explicit block rejection — no Go panic — as long as
+the ONG balances of payer and governance contract, before and after the execution, respect the total supply (the
+supply invariant is C06_conserve; beyond it `MustToStorageItem` would panic on a whole balance ≥ 2^64 units). In
+particular `tuneGasFeeByHeight` (as repaired) is total for all `uint64` arguments. -/
+theorem C05_total (v : Variant) (env : Env) (ov : Overlay σ) (tx : Tx) (out : ExecOutcome σ)
+    (hb : Bounded env ov tx out) : invoke v env ov tx out ≠ .panic := by
+  intro h
   have g := po_invoke v env ov tx out
   rw [h] at g
-  exact g
+  exact g hb
 
-/-- totality: every invoke transaction yields a notify (or an explicit block rejection) -/
-def C05_total (v : Variant) : Prop :=
-  ∀ (env : Env) (ov : Overlay Nat) (tx : Tx) (out : ExecOutcome Nat), invoke v env ov tx out ≠ .panic
+/-! ## The gas the VM is started with (recorded finding `gaslimit-underflow`) -/
 
-theorem C05_total_sound : C05_total .sound := by
-  intro env ov tx out h
-  have := (C05_panic_iff_cond _ _ _ _ _ h).1
-  cases this
+/-- the VM never gets more gas than the transaction's gas limit -/
+def C05_gas_bounded_statement (v : Variant) : Prop :=
+  ∀ (env : Env) (ov : Overlay Nat) (tx : Tx) (g : UInt64), gasGiven v env ov tx = some g → g ≤ tx.gasLimit
 
-/-- transactions admitted by the transaction pool (`GasLimit*GasPrice` does not overflow, `GasLimit ≥ 20000`) never
-reach the panic, also in the as-shipped code; the panic needs a transaction that enters through a block -/
-theorem C05_total_partial (env : Env) (ov : Overlay σ) (tx : Tx) (out : ExecOutcome σ)
-    (hl : minTxGas ≤ tx.gasLimit) (hm : tx.gasLimit.toNat * tx.gasPrice.toNat < 2 ^ 64) :
-    invoke .asShipped env ov tx out ≠ .panic := by
+/-- with the proposed guard (fixes/C05-gaslimit-underflow.patch) the bound holds for all inputs -/
+theorem C05_gas_bounded_sound : C05_gas_bounded_statement .sound :=
+  fun env ov tx g h => gasGiven_sound_le env ov tx g h
+
+/-- as shipped: gas price 922337203685478 (`20000·p` and `40000·p` wrap below the balance of 1 ONG), 2 KiB of code,
+gas limit 40000 — the VM is started with 2^64 − 40000 gas -/
+theorem C05_gas_bounded_asShipped_counterexample : ¬ C05_gas_bounded_statement .asShipped := by
   intro h
-  obtain ⟨_, _, hz, hc⟩ := C05_panic_iff_cond _ _ _ _ _ h
-  have hp : tx.gasPrice ≠ 0 := by
-    intro h0; simp [isCharge, h0] at hc
-  exact gasRound_ne_zero tx.gasPrice tx.gasLimit hp hl hm hz
+  have := h ⟨true, false, true, 20000, 0⟩ ⟨fun a => if a = 1 then 1000000000000000000 else 0, 0⟩
+    ⟨922337203685478, 40000, 2048, 1, true⟩ 18446744073709511616 (by decide)
+  revert this
+  decide
+
+/-- as shipped the bound holds for what the transaction pool admits (`GasLimit*GasPrice` does not overflow) -/
+theorem C05_gas_bounded_partial (env : Env) (ov : Overlay σ) (tx : Tx) (g : UInt64)
+    (hm : tx.gasLimit.toNat * tx.gasPrice.toNat < 2 ^ 64)
+    (h : gasGiven .asShipped env ov tx = some g) : g ≤ tx.gasLimit := by
+  unfold gasGiven at h
+  split at h
+  · next hc =>
+    have hp : tx.gasPrice ≠ 0 := by intro h0; simp [isCharge, h0] at hc
+    have hp' : 0 < tx.gasPrice.toNat := by
+      rcases Nat.eq_zero_or_pos tx.gasPrice.toNat with h0 | h0
+      · exact absurd (UInt64.toNat_inj.mp (by simpa using h0)) hp
+      · exact h0
+    split at h; · cases h
+    dsimp only at h
+    split at h; · cases h
+    split at h; · cases h
+    next hbal =>
+    split at h; · cases h
+    next hgl =>
+    simp only [underflows, Bool.false_eq_true, if_false] at h
+    injection h with h
+    subst h
+    -- codeLenGasLimit ≤ gasLimit, so codeLenGasLimit·price does not wrap and is ≤ the balance; hence ≤ balance / price
+    have hcl : (calcGasByCodeLen tx.codeLen env.uintCodeGas).toNat ≤ tx.gasLimit.toNat :=
+      UInt64.le_iff_toNat_le.mp (UInt64.not_lt.mp hgl)
+    have hprod : (calcGasByCodeLen tx.codeLen env.uintCodeGas).toNat * tx.gasPrice.toNat < 2 ^ 64 :=
+      Nat.lt_of_le_of_lt (Nat.mul_le_mul_right _ hcl) hm
+    have hb : (calcGasByCodeLen tx.codeLen env.uintCodeGas).toNat * tx.gasPrice.toNat ≤ (balUnits (ov.bal tx.payer)).toNat := by
+      have := UInt64.le_iff_toNat_le.mp (UInt64.not_lt.mp hbal)
+      rwa [UInt64.toNat_mul, Nat.mod_eq_of_lt hprod] at this
+    have hdiv : (calcGasByCodeLen tx.codeLen env.uintCodeGas).toNat ≤ (balUnits (ov.bal tx.payer)).toNat / tx.gasPrice.toNat :=
+      (Nat.le_div_iff_mul_le hp').mpr hb
+    have hge : calcGasByCodeLen tx.codeLen env.uintCodeGas ≤ availOf tx (balUnits (ov.bal tx.payer)) := by
+      unfold availOf; dsimp only
+      split
+      · rw [UInt64.le_iff_toNat_le, UInt64.toNat_div]; exact hdiv
+      · exact UInt64.not_lt.mp hgl
+    have hav := availOf_le tx (balUnits (ov.bal tx.payer))
+    rw [UInt64.le_iff_toNat_le] at hge hav ⊢
+    rw [UInt64.toNat_sub_of_le _ _ hge]
+    omega
+  · injection h with h; subst h; exact UInt64.le_refl _
 
 /-! ## Tie of the loop-free helpers to the source: `Gen/Gas.lean` is regenerated from tx_handler.go / neovm/config.go
 on every run (harness/cmd/factgen/facts_gas.go); these theorems are re-checked against it -/
 
-/-- the regenerated `tuneGasFeeByHeight` is the model's `tune`, in its as-shipped or in its repaired form -/
-theorem C05_tune_generated :
-    (∀ t g r c, OntVerif.Gen.Gas.tuneGasFeeByHeight t g r c = tune .asShipped t g r c) ∨
-    (∀ t g r c, OntVerif.Gen.Gas.tuneGasFeeByHeight t g r c = tune .sound t g r c) := by
-  first
-  | (left; intro t g r c; unfold OntVerif.Gen.Gas.tuneGasFeeByHeight tune
-     by_cases ht : t = true <;> by_cases hr : r = 0 <;> simp [ht, hr, maxU64] <;> (split <;> rfl))
-  | (right; intro t g r c; unfold OntVerif.Gen.Gas.tuneGasFeeByHeight tune
-     by_cases ht : t = true <;> by_cases hr : r = 0 <;> simp [ht, hr, maxU64] <;> (split <;> rfl))
+/-- the regenerated `tuneGasFeeByHeight` never reaches its division guard and is the model's `tune` -/
+theorem C05_tune_generated (t : Bool) (g r c : UInt64) :
+    OntVerif.Gen.Gas.tuneGasFeeByHeight t g r c = some (tune t g r c) := by
+  unfold OntVerif.Gen.Gas.tuneGasFeeByHeight tune
+  by_cases ht : t = true <;> by_cases hr : r = 0 <;> simp [ht, hr, maxU64] <;> (repeat' split) <;> simp_all
 
 theorem C05_calcGasByCodeLen_generated (l : Nat) (g : UInt64) :
     OntVerif.Gen.Gas.calcGasByCodeLen l g = calcGasByCodeLen l g := rfl
@@ -111,15 +204,20 @@ def txA (gp gl : UInt64) (len : Nat) (w : Bool := true) : Tx := ⟨gp, gl, len, 
 /-- an execution that wrote to storage (rest 9), moved `b - b'` away from the payer, and raised 3 events -/
 def outW (left : UInt64) (ok : Bool) (b' : Nat) : ExecOutcome Nat := ⟨left, ok, false, ⟨fun a => if a = 1 then b' else if a = 0 then 5 else 78, 9⟩, 3⟩
 
-/-- the recorded defect: `GasPrice = 2^59` (so `GasPrice*20000 = 0 mod 2^64`), trivially successful script -/
-theorem C05_asShipped_counterexample : ¬ C05_total .asShipped := by
-  intro h
-  exact h env0 (ovB 1000000000000000000) (txA 576460752303423488 20000 1) (outW 0 true 1000000000000000000) (by rfl)
-
-/-- same input, repaired code: FAIL, nothing charged (`20000 * 2^59` wraps to 0) -/
+/-- `GasPrice = 2^59` (`GasPrice*20000 = 0 mod 2^64`, the former divide-by-zero input): FAIL, nothing charged
+(`20000 * 2^59` wraps to 0) -/
 example : observe env0 (txA 576460752303423488 20000 1)
-    (invoke .sound env0 (ovB 1000000000000000000) (txA 576460752303423488 20000 1) (outW 0 false 0))
+    (invoke .asShipped env0 (ovB 1000000000000000000) (txA 576460752303423488 20000 1) (outW 0 false 0))
     = .done .fail 0 0 1000000000000000000 5 0 := by decide
+
+/-- the gas-limit underflow input (`C05_gas_bounded_asShipped_counterexample`): as shipped the VM runs (here: it ended
+with an error after using 3001 gas) and the whole balance is taken; with the guard the VM is not started and the
+transaction is charged like any other whose balance does not cover the code-length gas -/
+example : gasGiven .asShipped env0 (ovB 1000000000000000000) (txA 922337203685478 40000 2048) = some 18446744073709511616 := by decide
+example : gasGiven .sound env0 (ovB 1000000000000000000) (txA 922337203685478 40000 2048) = none := by decide
+example : observe env0 (txA 922337203685478 40000 2048)
+    (invoke .sound env0 (ovB 1000000000000000000) (txA 922337203685478 40000 2048) (outW 0 true 0))
+    = .done .fail 1000000000 1 0 1000000000000000005 0 := by decide
 
 /-- branch `oldBalance < minGas`: the whole (unit-truncated) balance is taken, the sub-unit remainder stays -/
 example : observe env0 (txA 2500 20000 1) (invoke .asShipped env0 (ovB 49999999000000123) (txA 2500 20000 1) (outW 0 true 0))
